@@ -123,6 +123,79 @@ PROPS = {
         level_text='Complete enumeration for the escaping functions; bounded contract check for the pages (never counted as proved).',
         level_note='str.replace with a 1-character needle acts per character (sampled).',
     ),
+    'C02': dict(
+        level='proof',
+        contracts=['C02'],
+        frames=[],
+        technique='deductive: VCs from the real AST of Ombott.to_route, PropsMixin.method, Route.__getitem__, RadiRouter.resolve and '
+                  'Ombott.handler (modular on the lookup contract of RadiDict.get); bounded exhaustive method-table check as replay harness',
+        explanation='candidates are [verb, GET if HEAD, ANY] in that order; the first registered candidate wins, RouteMethodError iff none; '
+                    'resolve answers 404 iff the lookup found no route, the endpoint iff a candidate is registered, else 405 whose third '
+                    'field is ",".join(sorted(route.methods)); handler raises HTTPError(405, Allow=that string) / HTTPError(404); the '
+                    'request method is upper-cased.',
+        level_text='Proof of the dispatch order, the 404/405 split and the Allow value for all verbs and method tables, relative to the '
+                   'lookup contract of the radix tree (which is C01 and bounded). The method-table mutators (add/overwrite/remove) and '
+                   'the registration-side upper-casing are decided by the bounded check only.',
+        level_note='Assumes RadiDict.get returns a falsy route iff no rule matches (C01, bounded); sorted/join uninterpreted; '
+                   'Route.__getitem__ checked for candidate lists of length 1..3 (complete for the callers).',
+        trusted_base=['lookup contract of RadiDict.get (C01, bounded)'],
+    ),
+    'C18': dict(
+        level='proof',
+        contracts=['C18'],
+        frames=[],
+        technique='deductive: loop-invariant VCs (three nested loops, cut lemmas) from the real AST of parse_qsl over z3 strings, '
+                  'z3 then cvc5; bounded check of list promotion and of the encode->parse round trip as replay harness',
+        explanation='parse_qsl never raises and terminates (variant L - i); every outer iteration starts at a segment start and consumes '
+                    'exactly one &-separated segment; the key is the separator-free run up to the first = or &, the value the &-free run '
+                    'after the =; empty keys emit nothing; both are decoded with + -> space and unquote.',
+        level_text='Proof of totality, termination and exact segment/key/value scanning for every input string. List promotion of '
+                   'repeated keys (nested add) and the library encoder/decoder inverse are decided by the bounded check.',
+        level_note='unquote / replace are uninterpreted total functions; only the setitem mode (the one ombott uses) is under contract; '
+                   'the nested add is a callee (bounded).',
+        trusted_base=['urllib.parse.unquote total', 'uniqueness of the decomposition of a string into &-segments (meta-argument)'],
+    ),
+    'C03': dict(
+        level='other', contracts=[], frames=[],
+        technique='bounded run-time contract check: independent PEP 3333 validator as postcondition of Ombott.__call__ over an enumerated '
+                  'space of handler programs x methods x statuses x hook configurations',
+        explanation='BOUNDED: exhaustive product of handler programs; see coverage.bounded.',
+        level_text='Bounded contract check of the real application (never counted as proved).',
+        level_note='The handler-program space is finite and stated in coverage.bounded.bound.',
+    ),
+    'C08': dict(
+        level='other', contracts=[], frames=[],
+        technique='bounded run-time contract check with forced thread interleavings (token hand-over at every executed statement of the '
+                  'package via sys.settrace; all schedules up to a preemption bound) against the served-alone response',
+        explanation='BOUNDED: forced interleavings of 2-3 request threads; see coverage.bounded.',
+        level_text='Bounded exploration of schedules on the real code (never counted as proved); the confinement proof is engine B work.',
+        level_note='Preemption bound and request kinds are stated in coverage.bounded.bound.',
+    ),
+    'C09': dict(
+        level='other', contracts=['C14'], frames=[],
+        technique='bounded run-time contract check of request histories against a fresh application + weak-reference retention count; '
+                  'VC on BaseResponse.__init__ (reset completeness)',
+        explanation='BOUNDED histories; reset completeness of the response object proved (BaseResponse.__init__).',
+        level_text='Bounded contract check of histories (never counted as proved) plus a proved reset obligation.',
+        level_note='History length and request kinds are stated in coverage.bounded.bound.',
+    ),
+    'C10': dict(
+        level='other', contracts=[], frames=[],
+        technique='bounded run-time contract check of nested / alternating / interleaved applications (every foreign operation must '
+                  'leave the view of every application in progress unchanged)',
+        explanation='BOUNDED arrangements of 2-3 applications; see coverage.bounded.',
+        level_text='Bounded contract check (never counted as proved); ownership VC on ts_props is pending.',
+        level_note='Arrangements are stated in coverage.bounded.bound.',
+    ),
+    'C11': dict(
+        level='other', contracts=[], frames=[],
+        technique='bounded model-based contract check: every edit history up to a depth bound (state-merged) compared with a freshly '
+                  'built router on all probe paths, name/rule lookups and fired hooks',
+        explanation='BOUNDED edit histories over six rule universes; see coverage.bounded.',
+        level_text='Bounded contract check (never counted as proved): the radix tree rewrites nested lists in place (slice assignment), '
+                   'which the VC generator does not model.',
+        level_note='Depth bound and universes are stated in coverage.bounded.bound.',
+    ),
 }
 
 NOT_APPLICABLE = {}
